@@ -886,7 +886,13 @@ class Emitter:
             d, s, n = cx(args[0]), cx(args[1]), args[2]
             fn = 'memmove' if 'memmove' in name else 'memcpy'
             if n.k == 'int':
-                if n.a: A('VERIF_MEMCPY_CONST(%s, %s, %d);' % (d, s, n.a))
+                src = args[1]
+                while src.k == 'cexpr': src = src.b[0]
+                if n.a and n.a <= 64 and src.k == 'global' and src.a in self.m.globals and self.m.globals[src.a].const:
+                    # brace-initialised local array/struct: copy byte by byte so that CBMC keeps the constant contents per element
+                    for k in range(n.a):
+                        A('((u8*)%s)[%d] = ((const u8*)%s)[%d];' % (d, k, s, k))
+                elif n.a: A('VERIF_MEMCPY_CONST(%s, %s, %d);' % (d, s, n.a))
             else:
                 A('verif_%s(%s, %s, %s);' % (fn, d, s, cx(n)))
             return
